@@ -10,6 +10,7 @@
   reference — force_dfs (C03), decompile_compile (C10), unify (C02).
 -/
 import PrologVerif.Model.VM
+import PrologVerif.Proofs.SLDSanity
 namespace PrologVerif.C01
 open PrologVerif PrologVerif.VM PrologVerif.Promise
 
